@@ -57,7 +57,15 @@ pub fn judge_text(text: &str) -> Judged {
             let at: String = r.get(d.primary.location.start.min(r.len())..).unwrap_or("").chars().take(12).collect();
             // position-derived signature: the first word at the error position
             let word: String = at.split_whitespace().next().unwrap_or("<end>").chars().take(12).collect();
-            j.sigs.insert(format!("rendered-text-rejected({})@{}", d.code, if word.chars().all(|c| c.is_ascii_alphanumeric() || c == '_') && !crate::lex::is_reserved(&word) { "<word>".to_string() } else { word }));
+            let first = word.chars().next().unwrap_or(' ');
+            let at_class = if first.is_ascii_digit() {
+                "<number>".to_string()
+            } else if word.chars().all(|c| c.is_ascii_alphanumeric() || c == '_') && !crate::lex::is_reserved(&word) {
+                "<word>".to_string()
+            } else {
+                word
+            };
+            j.sigs.insert(format!("rendered-text-rejected({})@{}", d.code, at_class));
             j.detail = format!("rendered text is rejected: {} at {}..{} near {:?}; rendered: {}", d.code, d.primary.location.start, d.primary.location.end, at, crate::util::short(&r, 200));
             return j;
         }
@@ -90,7 +98,14 @@ pub fn judge_text(text: &str) -> Judged {
 }
 
 pub fn run(ctx: &mut Ctx) {
-    let (cases, bound): (Vec<Case>, u32) = cases_for(ctx);
+    let (mut cases, bound): (Vec<Case>, u32) = cases_for(ctx);
+    // one program per literal of the C09 space (class label = group labels)
+    for l in crate::checks::c09::literals() {
+        if matches!(l.expect, crate::checks::c09::Expect::Reject(_)) {
+            continue;
+        }
+        cases.push(Case { group: "literal", labels: vec![l.label.clone()], lx: crate::checks::c09::program(&l), nt: crate::nt::NT::Nil });
+    }
     ctx.rule = "every C01 program (deviation bound as given, plus operator tables) that the parser accepts: parse -> render -> parse -> compare (PartialEq and π) -> render again -> compare text; distinct = distinct program text".into();
     ctx.bounds.insert("deviation_bound".into(), json!(bound));
     ctx.assumptions.push("programs the parser rejects in the first place are counted and left to C01".into());
